@@ -158,7 +158,8 @@ def step (line : String) : String :=
       | some h =>
         let a := if decide (Agree h) then "1" else "0"
         let kinds := h.map fun x => match x.resp with | some b => showKind (classify b) | none => "none"
-        s!"{a} client={",".intercalate ((clientStates St.default h).map showSt)} server={",".intercalate ((serverStates St.default h).map showSt)} kinds={",".intercalate kinds}"
+        let fin := h.foldl (fun st x => srvNext st x.resp) St.default
+        s!"{a} final={showSt fin} client={",".intercalate ((clientStates St.default h).map showSt)} server={",".intercalate ((serverStates St.default h).map showSt)} kinds={",".intercalate kinds}"
       | none => "bad-op"
     | _ => "bad-op"
   | _ => "bad-op"
